@@ -9,11 +9,13 @@ import (
 	"reflect"
 	"regexp"
 	"sort"
+	"strconv"
 	"strings"
 	"sync"
 	"time"
 
 	"github.com/gkampitakis/go-snaps/internal/verifhook/sched"
+	"github.com/gkampitakis/go-snaps/match"
 )
 
 // C12 — Config values are immutable; calls through them are order-independent
@@ -110,8 +112,29 @@ func c12Val(api string, i int) any {
 	return fmt.Sprintf("value %d", i)
 }
 
+// c12FixedDoc: the ":x" variants of the JSON/YAML entry points all receive this ONE document, with different matcher lists
+// (d = none, m = match.Any on a member, t = a match.Type that fails): what a call stores depends on ITS matchers only.
+const c12FixedJSON = `{"b":[1,2,3],"a":0,"c":"s"}`
+const c12FixedYAML = "b: [1, 2, 3]\na: 0\nc: s\n"
+
+var c12FixedAPIs = []string{"json:d", "json:m", "json:t", "sjson:d", "sjson:m", "yaml:d", "yaml:m"}
+
 func c12Do(cfg *Config, api string, t *vfT, i int) {
 	switch api {
+	case "json:d":
+		cfg.MatchJSON(t, c12FixedJSON)
+	case "json:m":
+		cfg.MatchJSON(t, []byte(c12FixedJSON), match.Any("a"))
+	case "json:t":
+		cfg.MatchJSON(t, c12FixedJSON, match.Type[string]("a"))
+	case "sjson:d":
+		cfg.MatchStandaloneJSON(t, []byte(c12FixedJSON))
+	case "sjson:m":
+		cfg.MatchStandaloneJSON(t, c12FixedJSON, match.Any("a", "c"))
+	case "yaml:d":
+		cfg.MatchYAML(t, c12FixedYAML)
+	case "yaml:m":
+		cfg.MatchYAML(t, c12FixedYAML, match.Any("$.a"))
 	case "snap":
 		cfg.MatchSnapshot(t, c12Val(api, i))
 	case "json":
@@ -136,7 +159,14 @@ func c12Created(before, after vfDirObs) []string {
 			continue
 		}
 		if b, ok := before[n]; !ok || string(b.Data) != string(a.Data) {
-			out = append(out, c12OrdRe.ReplaceAllString(n, "_N.snap"))
+			// what the call stored: the whole standalone file, or the entry it appended to the multi-entry file
+			stored := string(a.Data)
+			if !c12OrdRe.MatchString(n) {
+				if es, err := vfParse(a.Data); err == nil && len(es) > 0 {
+					stored = es[len(es)-1].Body
+				}
+			}
+			out = append(out, c12OrdRe.ReplaceAllString(n, "_N.snap")+" <- "+strconv.Quote(stored))
 		}
 	}
 	sort.Strings(out)
@@ -160,6 +190,24 @@ func c12Gen(c *vfCtx, emit func(c12Case)) {
 	rec(nil)
 	c.bound("sequences_per_option_set", len(seqs))
 	c.bound("option_sets", c12OptSets)
+	// the same document through one Config with different matcher lists (<= 3 calls)
+	var rec2 func(acc []string)
+	rec2 = func(acc []string) {
+		if len(acc) > 1 {
+			seqs = append(seqs, append([]string{}, acc...))
+		}
+		if len(acc) == 3 {
+			return
+		}
+		for _, a := range c12FixedAPIs {
+			rec2(append(acc, a))
+		}
+	}
+	rec2(nil)
+	for _, a := range c12FixedAPIs {
+		seqs = append(seqs, []string{a})
+	}
+	c.bound("sequences_per_option_set_with_fixed_document_variants", len(seqs))
 	for _, os := range c12OptSets {
 		for _, s := range seqs {
 			emit(c12Case{Kind: "seq", OptSet: os, Seq: s})
